@@ -334,7 +334,12 @@ class LabGen:
                         t = self.body_type()
                     else:
                         t = self.param_type(kind)
-                    if x < 0.2 and self._arg_safety_allowed(t):
+                    # binary arguments carrying a safety marker do not compile (the stream type is
+                    # not serializable); whether the compiler accepts that is doubtful -> not generated
+                    bin_arg = self._is_binary(t) or (t["type"] == "optional" and self._is_binary(t["optional"]["itemType"]))
+                    if bin_arg:
+                        pass
+                    elif x < 0.2 and self._arg_safety_allowed(t):
                         safety = r.choice(SAFETIES)
                     elif x < 0.28:
                         markers = [SAFE_MARKER]
